@@ -74,6 +74,17 @@ def obligations(tier, scratch):
             for a, b in itertools.combinations(range(len(SWITCHES)), 2):
                 for n in (2, 3):
                     add(sid, n, (SWITCHES[a], SWITCHES[b]), f"off{a}_{b}")
+    src[0] = "from checks.c13_lib import step, seed_key"
+    src.append('''
+def seed_key_sequence(right_key: bool, key_tail: bytes, pre_request: bool, spr: bool, i0: int, i1: int, i2: int, i3: int, b0: bool) -> bool:
+    """
+    pre: len(key_tail) == 1
+    post: _
+    """
+    return seed_key(right_key, key_tail, pre_request, spr, [i0, i1, i2, i3], [b0])
+''')
+    obs.append({"name": "seed_key_sequence", "module_path": path, "function": "seed_key_sequence", "cap": 600, "opaque": True, "twin_cap": 60,
+                "meta": {"history": "requestSeed (optional) then sendKey", "symbolic": "seed bytes (RNG draws), key right / wrong (+1 byte), suppress bit"}})
     with open(path, "w") as f:
         f.write("\n".join(src))
     return obs
